@@ -45,6 +45,8 @@ type Failure struct {
 	Details map[string]any `json:"details"`
 }
 
+type DomStats = domStats
+
 type domStats struct {
 	Name       string           `json:"domain"`
 	Desc       string           `json:"desc,omitempty"`
@@ -259,7 +261,11 @@ func (ck *Check) runWorker(tier string, seed int64, shard, of int, outPath strin
 					continue
 				}
 				atomic.StoreInt64(&at, lo)
+				t0 := time.Now()
 				d.Run(c, lo, hi)
+				if os.Getenv("VERIF_TIMING") != "" && time.Since(t0) > 200*time.Millisecond {
+					fmt.Fprintf(os.Stderr, "TIMING %s [%d,%d) %.1fs\n", d.Name, lo, hi, time.Since(t0).Seconds())
+				}
 				st.Completed += hi - lo
 				atomic.AddInt64(&progress, 1)
 			}
@@ -419,6 +425,13 @@ func (ck *Check) master(tier string, seed int64, evidence, replays, known string
 			}
 			infra += fmt.Sprintf("worker %d died: %v\n%s\n", r.i, r.err, tail)
 			continue
+		}
+		if os.Getenv("VERIF_TIMING") != "" {
+			for _, l := range strings.Split(r.stderr, "\n") {
+				if strings.HasPrefix(l, "TIMING") {
+					fmt.Println(l)
+				}
+			}
 		}
 		for _, s := range r.out.Stats {
 			m := merged[s.Name]
